@@ -1106,6 +1106,7 @@ def case_remove_pbc(rng, ctx):
     hmin = min(float(G.heights(b).min()) for b in boxes)
     nmol = int(rng.integers(1, 5))
     mols, bonds, owner = [], [], []
+    long_chain = False
     off = 0
     for k in range(nmol):
         na = int(rng.choice([1, 2, 3, 5, 8, 13, 20, 30], p=[.05, .15, .15, .2, .15, .1, .1, .1]))
@@ -1113,6 +1114,14 @@ def case_remove_pbc(rng, ctx):
         if na > 1:
             diam = pair_dists(xyz).max()
             xyz = xyz * (rng.uniform(0.05, 0.45) * hmin / diam)
+        if na >= 8 and rng.random() < 0.25:
+            # an extended chain: consecutive atoms are bonded and close, the whole molecule reaches further than half the
+            # smallest box height from its first atom (stored in chain order; such a molecule is not compact)
+            long_chain = True
+            step = rng.uniform(0.04, 0.09) * hmin
+            t = np.arange(na)
+            xyz = np.stack([t * step, 0.3 * step * (t % 2), 0.2 * step * ((t // 2) % 2)], axis=1)
+            bl = [(i, i + 1) for i in range(na - 1)]
         mols.append(xyz)
         bonds += [(i + off, j + off) for i, j in bl]
         owner += [k] * na
@@ -1120,6 +1129,9 @@ def case_remove_pbc(rng, ctx):
     N = off
     owner = np.array(owner)
     perm = rng.permutation(N) if rng.random() < 0.6 else np.arange(N)     # interleave molecules
+    if long_chain:
+        perm = np.arange(N)
+        ctx.op("remove_pbc_extended_chain")
     inv = np.argsort(perm)
     owner_p = owner[perm]
     bonds_p = [(int(inv[i]), int(inv[j])) for i, j in bonds]
